@@ -34,6 +34,15 @@ type Case struct {
 	LetParens int `json:"letparens,omitempty"`
 	// NoSubst: Query must compile to the same SQL with and without the binding Name.
 	NoSubst *NoSubst `json:"nosubst,omitempty"`
+	// Verbatim: Query compiled with parameter Name bound to Value must equal the
+	// output for a marker value with the marker replaced by Value.
+	Verbatim *Verbatim `json:"verbatim,omitempty"`
+}
+
+type Verbatim struct {
+	Query string  `json:"query"`
+	Name  string  `json:"name"`
+	Value mon.Str `json:"value"`
 }
 
 type NoSubst struct {
@@ -235,6 +244,18 @@ func generate(w *mon.W) {
 			})
 		}
 	}
+	// parameters are inserted verbatim: whatever the text (empty, blank, several
+	// tokens, quotes), the output is the output for a marker with the marker
+	// replaced by that text
+	for _, q := range []string{"T | where x == %s", "T | extend y = %s", "T | take %s", "T | where %s", "let n = %s; T | take n | where a == n", "T | project %s", "T | where a in (%s, 1) and -%s < 0",
+		"T | join (U) on $left.a == %s", "T | summarize count() by b = %s", "T | sort by %s", "T | where f(%s)[%s] == %s"} {
+		for _, name := range []string{"p", "null", "true", "ia", "$p", "count"} {
+			for _, v := range []string{"", " ", "  ", "$1", "{p:String}", "a b", "NULL", "0", "''", "'", "\"", "--", "/*", ")", "(", ";", "p", name, "\x00", "é", "\xff", strings.Repeat("x", 5000)} {
+				c := &Case{Verbatim: &Verbatim{Query: strings.ReplaceAll(q, "%s", name), Name: name, Value: mon.Str(v)}}
+				w.Do("verbatim|"+c.Verbatim.Query+"|"+v, func(r *mon.R) { Check(c, r) })
+			}
+		}
+	}
 	// non-substitution positions
 	queries := []string{
 		"T | where `%s` == 1", "T | where %s.a == 1", "T | where a.%s == 1", "T | where %s(1) == 2", "%s | count", "T | project %s = a", "T | extend %s = 1",
@@ -308,6 +329,10 @@ func Check(c *Case, r *mon.R) {
 	r.Case = c
 	if c.NoSubst != nil {
 		checkNoSubst(c.NoSubst, r)
+		return
+	}
+	if c.Verbatim != nil {
+		checkVerbatim(c.Verbatim, r)
 		return
 	}
 	rng := gen.RNG(c.Seed, "c06case")
@@ -448,6 +473,32 @@ func checkNoSubst(n *NoSubst, r *mon.R) {
 	}
 	r.Nontrivial()
 	r.Count("non_substitution_checks", 1)
+}
+
+const marker = "\x01zzMARKERzz\x01"
+
+func checkVerbatim(v *Verbatim, r *mon.R) {
+	withMarker, err0, o0 := mon.Compile(v.Query, map[string]string{v.Name: marker})
+	got, err1, o1 := mon.Compile(v.Query, map[string]string{v.Name: string(v.Value)})
+	if o0.Anomalous() || o1.Anomalous() {
+		r.Inconclusive("foreign_compile_anomaly")
+		return
+	}
+	if err0 != nil {
+		r.Inconclusive("foreign_compile_error")
+		return
+	}
+	if !strings.Contains(withMarker, marker) {
+		r.Inconclusive("marker_not_in_output")
+		return
+	}
+	want := strings.ReplaceAll(withMarker, marker, string(v.Value))
+	if err1 != nil || got != want {
+		r.Violation("", "the parameter %s is not inserted verbatim: Compile(%q) with %s=%q gives\n  %s %v\n expected (the output for a marker value, with the marker replaced)\n  %s", v.Name, v.Query, v.Name, clip(string(v.Value), 80), clip(got, 400), err1, clip(want, 400))
+		return
+	}
+	r.Nontrivial()
+	r.Count("verbatim_checks", 1)
 }
 
 func scopeString(s map[string]val.V) string {
